@@ -767,4 +767,102 @@ Definition spec_stages_result (stages : list stage) (q : json) : res (list json)
 
 Lemma run_is_run_stages n q : run n q = run_stages (repeat SGrid n) q.
 Proof. unfold run, run_stages. f_equal. induction n as [|n IH]; [reflexivity|]. cbn. rewrite <- IH. reflexivity. Qed.
+
+(* ---------- output side: whatever the input, a grid stage leaves no grid section ---------- *)
+
+Definition nokey (x : json) : Prop := jget x grid_key = None.
+
+Lemma oremove_nodup m k : NoDup (map fst m) -> NoDup (map fst (oremove m k)).
+Proof. intros H. rewrite (oremove_without m k H). apply without_nodup. exact H. Qed.
+
+Lemma process_output q r :
+  wfq q -> process q = Ok r -> Forall wfq (unnest r) /\ Forall nokey (unnest r).
+Proof.
+  intros [m [-> Hnd]] Hp. rewrite process_eq in Hp. cbn [process_char] in Hp.
+  destruct (oget m grid_key) as [section|] eqn:Hg.
+  - destruct (mentions section) eqn:Hm; [discriminate|].
+    destruct section as [| | | | | |sec]; try discriminate.
+    destruct (GS.is_nil (expansion m sec)); [discriminate|]. injection Hp as <-. cbn [unnest].
+    split; apply Forall_forall; intros x Hx; apply in_map_iff in Hx; destruct Hx as [o [<- Ho]];
+      apply expansion_in in Ho; destruct Ho as [c [Hc ->]].
+    + eexists. split; [reflexivity|]. apply overlay_nodup, oremove_nodup. exact Hnd.
+    + exact (overlay_no_key m sec c Hnd Hm Hc).
+  - injection Hp as <-. cbn [unnest]. split; (constructor; [|constructor]).
+    + exists m. split; [reflexivity | exact Hnd].
+    + exact Hg.
+Qed.
+
+Lemma mapM_process_output (qs rs : list json) :
+  Forall wfq qs -> mapM process qs = Ok rs ->
+  Forall wfq (flat_map unnest rs) /\ Forall nokey (flat_map unnest rs).
+Proof.
+  intros H. revert rs. induction H as [|q qs Hq H IH]; intros rs Hm; cbn [mapM] in Hm.
+  - injection Hm as <-. split; constructor.
+  - destruct (process q) as [r| | |] eqn:Er; try discriminate. cbn [bind] in Hm.
+    destruct (mapM process qs) as [rs'| | |]; try discriminate. cbn [bind] in Hm. injection Hm as <-.
+    destruct (process_output q r Hq Er) as [H1 H2]. destruct (IH rs' eq_refl) as [H3 H4].
+    cbn [flat_map]. split; apply Forall_app; split; assumption.
+Qed.
+
+Lemma array_op_grid_output (qs : list json) st :
+  Forall wfq qs -> array_op process (VArr qs) = Ok st ->
+  exists l, st = VArr l /\ Forall wfq l /\ Forall nokey l.
+Proof.
+  intros H Ha. unfold array_op in Ha. destruct (mapM process qs) as [rs| | |] eqn:Em; try discriminate.
+  cbn [bind] in Ha. rewrite flatten_unnest in Ha. injection Ha as <-.
+  destruct (mapM_process_output qs rs H Em) as [H1 H2]. eexists. split; [reflexivity | split; assumption].
+Qed.
+
+Lemma array_op_stage_wf s (qs : list json) st :
+  Forall wfq qs -> array_op (stage_op s) (VArr qs) = Ok st -> exists l, st = VArr l /\ Forall wfq l.
+Proof.
+  intros H Ha. destruct s as [|p section]; cbn [stage_op] in Ha.
+  - destruct (array_op_grid_output qs st H Ha) as [l [-> [Hl _]]]. exists l. split; [reflexivity | exact Hl].
+  - rewrite (array_op_add p section qs H) in Ha. injection Ha as <-. eexists. split; [reflexivity|].
+    apply Forall_forall. intros x Hx. apply in_map_iff in Hx. destruct Hx as [q [<- Hq]].
+    apply add_section_wf. exact (proj1 (Forall_forall _ _) H q Hq).
+Qed.
+
+Lemma chain_stages_not_ok stages (st : res json) : is_ok st = false -> chain_stages stages st = st.
+Proof.
+  revert st. induction stages as [|s stages IH]; intros st H; [reflexivity|].
+  unfold chain_stages. cbn [map fold_left]. fold (chain_stages stages (do x <- st; array_op (stage_op s) x)).
+  destruct st; try discriminate; cbn [bind]; apply IH; reflexivity.
+Qed.
+
+Lemma chain_stages_wf stages : forall (qs : list json) st,
+  Forall wfq qs -> chain_stages stages (Ok (VArr qs)) = Ok st -> exists l, st = VArr l /\ Forall wfq l.
+Proof.
+  induction stages as [|s stages IH]; intros qs st H Hc.
+  - injection Hc as <-. exists qs. split; [reflexivity | exact H].
+  - unfold chain_stages in Hc. cbn [map fold_left bind] in Hc.
+    fold (chain_stages stages (array_op (stage_op s) (VArr qs))) in Hc.
+    destruct (array_op (stage_op s) (VArr qs)) as [st1| | |] eqn:Ea;
+      try (rewrite chain_stages_not_ok in Hc by reflexivity; discriminate).
+    destruct (array_op_stage_wf s qs st1 H Ea) as [l1 [-> Hl1]]. exact (IH l1 st Hl1 Hc).
+Qed.
+
+Lemma chain_stages_app s1 s2 (st : res json) :
+  chain_stages (s1 ++ s2) st = chain_stages s2 (chain_stages s1 st).
+Proof. unfold chain_stages. rewrite map_app, fold_left_app. reflexivity. Qed.
+
+(* for EVERY query object with unique keys and every chain whose last plugin is the grid search
+   (stub plugins adding arbitrary sections included): a successful result has no grid section *)
+Lemma run_stages_output stages q l :
+  (forall m, q = VObj m -> NoDup (map fst m)) ->
+  run_stages (stages ++ [SGrid]) q = Ok l -> Forall nokey l.
+Proof.
+  intros Hwf Hr. unfold run_stages, apply_input_plugins in Hr.
+  destruct q as [| | | | | |m]; try discriminate. cbn [is_object negb] in Hr.
+  fold (chain_stages (stages ++ [SGrid]) (Ok (VArr [VObj m]))) in Hr.
+  rewrite chain_stages_app in Hr.
+  assert (Hq : Forall wfq [VObj m]) by (constructor; [exists m; split; [reflexivity | exact (Hwf m eq_refl)] | constructor]).
+  destruct (chain_stages stages (Ok (VArr [VObj m]))) as [st1| | |] eqn:E1; try discriminate.
+  destruct (chain_stages_wf stages [VObj m] st1 Hq E1) as [l1 [-> Hl1]].
+  unfold chain_stages in Hr. cbn [map fold_left bind stage_op] in Hr.
+  destruct (array_op process (VArr l1)) as [st2| | |] eqn:E2; try discriminate.
+  destruct (array_op_grid_output l1 st2 Hl1 E2) as [l2 [-> [_ Hk]]].
+  cbn [bind array_flatten] in Hr. destruct (forallb is_object l2); [|discriminate].
+  injection Hr as <-. exact Hk.
+Qed.
 End AnyFloat.
